@@ -263,10 +263,12 @@ fn queries(ctx: &mut Ctx) {
             ctx.sess.checked(&format!("Q {a} {b}"), "Q");
         }
         "C01" | "C19" => {
+            ctx.sess.checked("I", "I");
             ctx.sess.checked("F state", "F");
             ctx.sess.checked("F contents", "F");
         }
         "C15" => {
+            ctx.sess.checked("I", "I");
             ctx.sess.checked(&format!("RF 0 {cols}"), "RF");
             let a = r.range(0, cols.saturating_sub(1));
             let b = r.range(1, cols - a);
